@@ -44,10 +44,15 @@ int main(void) {
 		struct mtbl_iter *it = mtbl_source_iter(mtbl_merger_source(m));
 		printf("F2 expect '', 'a', 'b':\n");
 		show("  next", it); show("  next", it); show("  next", it); show("  next", it);
-		/* F8: seek to the key just returned (first next yields 'a' here because of F2) */
+		/* F8: seek to the key just returned (advance until "a" was returned, so that the
+		 * reproduction does not depend on F2) */
 		struct mtbl_iter *it2 = mtbl_source_iter(mtbl_merger_source(m));
-		printf("F8 next; seek(<key just returned>); next must return that key again:\n");
-		show("  next", it2);
+		printf("F8 next (until 'a' was returned); seek(a); next must return 'a' again:\n");
+		{
+			const uint8_t *k, *v; size_t lk, lv;
+			while (mtbl_iter_next(it2, &k, &lk, &v, &lv) == mtbl_res_success)
+				if (lk == 1 && k[0] == 'a') break;
+		}
 		if (mtbl_iter_seek(it2, (const uint8_t *)"a", 1) != mtbl_res_success) abort();
 		show("  seek(a);next (expect a)", it2);
 		mtbl_iter_destroy(&it); mtbl_iter_destroy(&it2);
